@@ -294,7 +294,9 @@ type sweepReport struct {
 	Restarts   int                       `json:"worker_restarts"`
 }
 
-func isFail(v string) bool { return v == VPanic || v == VOOM || v == VFatal || v == VHang || v == VGhost }
+func isFail(v string) bool {
+	return v == VPanic || v == VOOM || v == VFatal || v == VHang || v == VGhost
+}
 
 func signature(r caseResult) string {
 	d := r.Detail
@@ -550,6 +552,5 @@ func l1Kind(b []byte) (kind string) {
 	e.teardown()
 	return "V"
 }
-
 
 var _ = proto.Marshal
